@@ -124,7 +124,13 @@ def C03(ctx):
 def C04(ctx):
     ctx.assumptions += ["well-formedness is evaluated on truth tables of every prime and sub of every new node (partition, vtree sides, distinct subs, untrimmable)",
                         "unique-table growth forced by the capacity hook (both SDD tables use BackedRobinhoodTable)"]
-    _sdd_family(ctx, "c04", "TraceSdd_C04.cfg", nq=8)
+    # both SDD unique tables are BackedRobinhoodTable in structural-equality mode: the design-level check and the
+    # table-level conformance checks of C02 apply to C04's "pointer-equal iff same function" as well
+    model_check(ctx, "RobinHood", "MC_RobinHood.cfg", "RobinHood (as repaired) refines SetTable: 5 keys, 4 hashes, cap 2->8", workers=6)
+    gen_and_replay(ctx, "GenTable", "GenTable.cfg", "table", "all get_or_insert sequences of the bounded RobinHood model")
+    record_and_validate(ctx, [("table_%d" % i, ["record", "table", "--byhash", "never", "--seed", ctx.seed * 1000 + 50 + i, "--segments", 25, "--len", 60])
+                              for i in range(3 if ctx.quick else 16)], "TraceTable", "TraceTable.cfg")
+    _sdd_family(ctx, "c04", "TraceSdd_C04.cfg", nq=10)
 
 
 def C05(ctx):
@@ -197,7 +203,7 @@ def C06(ctx):
     ctx.assumptions += ["CNFs <= 6 variables, <= 9 clauses; every permutation of the variables may be the decision order (random)",
                         "both node stores (standard, semantic-hash over the 64-bit prime); conditioning on every (variable, value) of results and their negations",
                         "engineered family: unit clauses + a two-variable core whose (un)satisfiability is only found by search"]
-    record_and_validate(ctx, td_jobs(ctx, 6 if ctx.quick else 40, 150 if ctx.quick else 250), "TraceTopDown", "TraceTopDown_C06.cfg")
+    record_and_validate(ctx, td_jobs(ctx, 8 if ctx.quick else 40, 300 if ctx.quick else 500), "TraceTopDown", "TraceTopDown_C06.cfg")
 
 
 def C15(ctx):
